@@ -644,10 +644,19 @@ Ltac thB B7 Hth Hpc fx :=
   destruct (k_async (t_kind _)); destruct (3 <=? stage _); destruct (5 <=? stage _);
   try destruct fx; cbn in *; try reflexivity; try discriminate.
 
+Ltac closerB B1 B2 B3 :=
+  auto; try lia;
+  try (intros _; first [apply B1; lia|apply B2; lia|lia]);
+  try (let Hx := fresh "Hx" in intro Hx; first [specialize (B3 Hx); lia|congruence]).
+
 Lemma invB_step fx s l s' : InvB s -> stepf fx s l = Some s' -> InvB s'.
 Proof.
   intros (B1 & B2 & B3 & B4 & B5 & B6 & B7) H.
   step_inv H.
+  (* thread steps that leave the core alone *)
+  all: try (split7b; ssimp; auto;
+    [ intros t0 th0 Ht0; apply updt_cases in Ht0; destruct Ht0 as [[-> ->]|[Hne Ht0]]; [exact (B6 _ _ Hth)|exact (B6 _ _ Ht0)]
+    | thB B7 Hth Hpc fx ]; fail).
   - (* Spawn *)
     split7b; ssimp; auto.
     + intros t th Ht. apply updt_cases in Ht. destruct Ht as [[-> ->]|[Hne Ht]]; [lia|]. specialize (B6 _ _ Ht). lia.
@@ -658,17 +667,29 @@ Proof.
         apply Nat.leb_le in E3. exfalso. assert (false = true) by (apply B1; lia). discriminate.
       * cbn in Hsp. destruct (5 <=? stage s) eqn:E5; [|destruct (3 <=? stage s); reflexivity].
         apply Nat.leb_le in E5. rewrite B2 in Hsp by lia. discriminate.
-  (* thread steps that leave the core alone *)
-  all: try (split7b; ssimp; auto;
+  - (* PRun fails *)
+    destruct fx; (split7b; ssimp; auto;
     [ intros t0 th0 Ht0; apply updt_cases in Ht0; destruct Ht0 as [[-> ->]|[Hne Ht0]]; [exact (B6 _ _ Hth)|exact (B6 _ _ Ht0)]
-    | thB B7 Hth Hpc fx ]; fail).
+    | intros t0 th0 Ht0; apply updt_cases in Ht0; destruct Ht0 as [[-> ->]|[Hne Ht0]]; [|exact (B7 _ _ Ht0)];
+      pose proof (B7 _ _ Hth) as Bt; unfold tinvB, exp_active, async_active, after_handle, sends, set_out, set_pc in *; ssimp;
+      rewrite Hpc in Bt;
+      destruct (k_async (t_kind th)), (k_upd (t_kind th)), (3 <=? stage s), (5 <=? stage s); cbn in *;
+      try reflexivity; try discriminate ]).
+  - (* PRun succeeds *)
+    destruct fx; (split7b; ssimp; auto;
+    [ intros t0 th0 Ht0; apply updt_cases in Ht0; destruct Ht0 as [[-> ->]|[Hne Ht0]]; [exact (B6 _ _ Hth)|exact (B6 _ _ Ht0)]
+    | intros t0 th0 Ht0; apply updt_cases in Ht0; destruct Ht0 as [[-> ->]|[Hne Ht0]]; [|exact (B7 _ _ Ht0)];
+      pose proof (B7 _ _ Hth) as Bt; unfold tinvB, exp_active, async_active, after_handle, sends, set_out, set_pc in *; ssimp;
+      rewrite Hpc in Bt;
+      destruct (k_async (t_kind th)), (k_upd (t_kind th)), (3 <=? stage s), (5 <=? stage s); cbn in *;
+      try reflexivity; try discriminate ]).
   - (* PSend *)
     pose proof (B7 _ _ Hth) as Bt.
     cbn [cstep] in Hcs. destruct (in_closed (co s)) eqn:Hic.
     { exfalso. specialize (B3 eq_refl). unfold tinvB, exp_active, async_active in Bt. rewrite Hpc, B3 in Bt.
       destruct (k_async (t_kind th)); discriminate Bt. }
     destruct (in_ev (co s)); [discriminate|]. inv_some.
-    split7b; ssimp; csimp; auto.
+    split7b; ssimp; csimp; rewrite ?Hic; auto; try discriminate.
     + intros t0 th0 Ht0; apply updt_cases in Ht0; destruct Ht0 as [[-> ->]|[Hne Ht0]]; [exact (B6 _ _ Hth)|exact (B6 _ _ Ht0)].
     + thB B7 Hth Hpc fx.
   - (* PSendErr *)
@@ -677,45 +698,34 @@ Proof.
     { exfalso. specialize (B3 eq_refl). unfold tinvB, exp_active, async_active in Bt. rewrite Hpc, B3 in Bt.
       destruct (k_async (t_kind th)); discriminate Bt. }
     destruct (in_ev (co s)); [discriminate|]. inv_some.
-    split7b; ssimp; csimp; auto.
+    split7b; ssimp; csimp; rewrite ?Hic; auto; try discriminate.
     + intros t0 th0 Ht0; apply updt_cases in Ht0; destruct Ht0 as [[-> ->]|[Hne Ht0]]; [exact (B6 _ _ Hth)|exact (B6 _ _ Ht0)].
     + thB B7 Hth Hpc fx.
   - (* closer 0: close(closing) *)
     cbn [cstep] in Hcs. destruct (closing (co s)) eqn:Hcl.
     { specialize (B4 eq_refl). lia. }
-    inv_some. split7b; ssimp; csimp; auto; try lia.
-    + intro Hc. specialize (B3 Hc). lia.
-    + intros t0 th0 Ht0. specialize (B7 _ _ Ht0). unfold tinvB in *; ssimp. rewrite Hst in B7. exact B7.
+    inv_some. split7b; ssimp; csimp; rewrite ?Hst; closerB B1 B2 B3.
+    intros t0 th0 Ht0. specialize (B7 _ _ Ht0). unfold tinvB in *; ssimp. rewrite ?Hst in *. exact B7.
   - (* closer 1 *)
-    split7b; ssimp; auto; try lia.
-    + intro Hc. specialize (B3 Hc). lia.
-    + intros t0 th0 Ht0. specialize (B7 _ _ Ht0). unfold tinvB in *; ssimp. rewrite Hst in B7. exact B7.
+    split7b; ssimp; rewrite ?Hst; closerB B1 B2 B3.
+    intros t0 th0 Ht0. specialize (B7 _ _ Ht0). unfold tinvB in *; ssimp. rewrite ?Hst in *. exact B7.
   - (* closer 2: expSyncWG.Wait *)
-    split7b; ssimp; auto; try lia.
-    + intros _. apply B1. lia.
-    + intro Hc. specialize (B3 Hc). lia.
-    + intros t0 th0 Ht0. unfold tinvB; ssimp.
-      rewrite (none_active_spec _ _ Hna _ _ Ht0 (B6 _ _ Ht0)). reflexivity.
+    split7b; ssimp; rewrite ?Hst; closerB B1 B2 B3.
+    intros t0 th0 Ht0. unfold tinvB; ssimp.
+    rewrite (none_active_spec _ _ Hna _ _ Ht0 (B6 _ _ Ht0)). rewrite Hst. reflexivity.
   - (* closer 3 *)
-    split7b; ssimp; auto; try lia.
-    + intros _. apply B1. lia.
-    + intro Hc. specialize (B3 Hc). lia.
-    + intros t0 th0 Ht0. specialize (B7 _ _ Ht0). unfold tinvB in *; ssimp. rewrite Hst in B7. exact B7.
+    split7b; ssimp; rewrite ?Hst; closerB B1 B2 B3.
+    intros t0 th0 Ht0. specialize (B7 _ _ Ht0). unfold tinvB in *; ssimp. rewrite ?Hst in *. exact B7.
   - (* closer 4: asyncWG.Wait *)
-    split7b; ssimp; auto; try lia.
-    + intros _. apply B1. lia.
-    + intros _. apply B2. lia.
-    + intro Hc. specialize (B3 Hc). lia.
-    + intros t0 th0 Ht0. specialize (B7 _ _ Ht0). unfold tinvB in *; ssimp. rewrite Hst in B7.
-      rewrite (none_active_spec _ _ Hna _ _ Ht0 (B6 _ _ Ht0)).
-      apply andb_prop in B7. destruct B7 as [B7 _]. rewrite B7. reflexivity.
+    split7b; ssimp; rewrite ?Hst; closerB B1 B2 B3.
+    intros t0 th0 Ht0. specialize (B7 _ _ Ht0). unfold tinvB in *; ssimp. rewrite ?Hst in *.
+    rewrite (none_active_spec _ _ Hna _ _ Ht0 (B6 _ _ Ht0)).
+    apply andb_prop in B7. destruct B7 as [B7 _]. change (3 <=? 5) with true. change (3 <=? 4) with true in B7. rewrite B7. reflexivity.
   - (* closer 5: close(inEvents) *)
     cbn [cstep] in Hcs. destruct (in_closed (co s)) eqn:Hic.
     { specialize (B3 eq_refl). lia. }
-    inv_some. split7b; ssimp; csimp; auto; try lia.
-    + intros _. apply B1. lia.
-    + intros _. apply B2. lia.
-    + intros t0 th0 Ht0. specialize (B7 _ _ Ht0). unfold tinvB in *; ssimp. rewrite Hst in B7. exact B7.
+    inv_some. split7b; ssimp; csimp; rewrite ?Hst; closerB B1 B2 B3.
+    intros t0 th0 Ht0. specialize (B7 _ _ Ht0). unfold tinvB in *; ssimp. rewrite ?Hst in *. exact B7.
   - (* core labels *)
     destruct (cstep_ok_frame _ _ _ Hok Hcs) as (F1 & F2 & F3 & _).
     split7b; ssimp; auto; rewrite ?F1, ?F2, ?F3; auto.
@@ -723,3 +733,336 @@ Qed.
 
 Theorem invB_reach fx s : reach fx s -> InvB s.
 Proof. apply invariant_reachable; [apply invB_init|apply invB_step]. Qed.
+
+(* ---- group C: which sync sends which event, and how often ---- *)
+
+Definition pre_out (p : pc) : bool := match p with PLockA | PCheck | PLock | PRun => true | _ => false end.
+Definition pre_send (fx : bool) (p : pc) : bool :=
+  match p with
+  | PLockA | PCheck | PLock | PRun | PSetLatest | PSend | PSendErr => true
+  | PUnlock => negb fx
+  | _ => false
+  end.
+Definition is_some {A} (o : option A) : bool := match o with Some _ => true | None => false end.
+Definition ev_ok (t : nat) (th : thread) : bool :=
+  match t_ev th with
+  | None => true
+  | Some e =>
+    event_eqb e (mk_event t (t_kind th) (if e_err e then 0%N else out_cnt th) (e_err e)) &&
+    Bool.eqb (e_err e) (negb (out_ok th))
+  end.
+Definition is_setsend (p : pc) : bool := match p with PSetLatest | PSend => true | _ => false end.
+Definition is_senderr (p : pc) : bool := match p with PSendErr => true | _ => false end.
+
+Definition tinvC (fx : bool) (t : nat) (th : thread) : bool :=
+  implb (pre_out (t_pc th)) (negb (is_some (t_out th))) &&
+  implb (is_setsend (t_pc th)) (out_ok th && k_upd (t_kind th)) &&
+  implb (is_senderr (t_pc th)) (negb (out_ok th) && is_some (t_out th) && k_async (t_kind th)) &&
+  (if pre_send fx (t_pc th) then negb (is_some (t_ev th)) else Bool.eqb (is_some (t_ev th)) (sends th)) &&
+  ev_ok t th.
+
+Definition InvC (fx : bool) (s : st) : Prop :=
+  sent_log s = fwd (co s) ++ opt_list (in_ev (co s)) /\
+  (forall e, In e (sent_log s) -> exists th, threads s (e_sid e) = Some th /\ t_ev th = Some e) /\
+  (forall t th e, threads s t = Some th -> t_ev th = Some e -> In e (sent_log s)) /\
+  NoDup (map e_sid (sent_log s)) /\
+  (forall t th, threads s t = Some th -> tinvC fx t th = true).
+
+Lemma event_eqb_refl e : event_eqb e e = true.
+Proof.
+  unfold event_eqb. rewrite Nat.eqb_refl, !N.eqb_refl, !Bool.eqb_reflx. reflexivity.
+Qed.
+
+Lemma event_eqb_eq a b : event_eqb a b = true -> a = b.
+Proof.
+  unfold event_eqb. intro H. repeat (apply andb_prop in H; destruct H as [H ?]).
+  destruct a, b; cbn in *.
+  apply Nat.eqb_eq in H. apply Bool.eqb_prop in H4, H0. apply N.eqb_eq in H3, H2, H1. subst. reflexivity.
+Qed.
+
+Lemma invC_init fx : InvC fx init.
+Proof. unfold InvC, init; cbn. repeat split; try constructor; try discriminate; intros ? []. Qed.
+
+Ltac split5 := split; [|split; [|split; [|split]]].
+
+(* a thread step that keeps t_ev and the log *)
+Lemma invC_frame_thread s t th th' :
+  threads s t = Some th -> t_ev th' = t_ev th ->
+  (forall e, In e (sent_log s) -> exists th, threads s (e_sid e) = Some th /\ t_ev th = Some e) ->
+  (forall t th e, threads s t = Some th -> t_ev th = Some e -> In e (sent_log s)) ->
+  (forall e, In e (sent_log s) -> exists th0, updt (threads s) t th' (e_sid e) = Some th0 /\ t_ev th0 = Some e) /\
+  (forall t0 th0 e, updt (threads s) t th' t0 = Some th0 -> t_ev th0 = Some e -> In e (sent_log s)).
+Proof.
+  intros Hth Hev G1 G2. split.
+  - intros e He. destruct (G1 _ He) as (th1 & H1 & H2). destruct (Nat.eq_dec (e_sid e) t) as [E|E].
+    + rewrite E in *. rewrite Hth in H1. inversion H1; subst. exists th'. rewrite updt_same. split; congruence.
+    + exists th1. rewrite updt_other by assumption. auto.
+  - intros t0 th0 e H0 He. apply updt_cases in H0. destruct H0 as [[-> ->]|[Hne H0]].
+    + eapply G2; [exact Hth|congruence].
+    + eapply G2; eassumption.
+Qed.
+
+Ltac thC C5 Hth Hpc fx :=
+  let t0 := fresh "t0" in let th0 := fresh "th0" in let Ht0 := fresh "Ht0" in let Hne := fresh "Hne" in
+  let Ct := fresh "Ct" in
+  intros t0 th0 Ht0; apply updt_cases in Ht0; destruct Ht0 as [[-> ->]|[Hne Ht0]]; [|exact (C5 _ _ Ht0)];
+  pose proof (C5 _ _ Hth) as Ct;
+  unfold tinvC, ev_ok, pre_out, pre_send, is_setsend, is_senderr, after_handle, sends, out_ok, out_cnt, set_out, set_pc, set_ev in *;
+  ssimp; rewrite Hpc in Ct;
+  try destruct fx;
+  match type of Hth with
+  | threads _ _ = Some ?th =>
+    destruct (t_out th) as [[[|] ?]|]; destruct (t_ev th) as [?|];
+    destruct (k_async (t_kind th)); destruct (k_upd (t_kind th))
+  end;
+  cbn in *; try reflexivity; try discriminate; try assumption;
+  rewrite ?event_eqb_refl; try reflexivity.
+
+Ltac frameC Hth C2 C3 :=
+  match goal with
+  | |- InvC _ (w_threads _ (updt _ ?t ?th')) =>
+    let F1 := fresh "F1" in let F2 := fresh "F2" in
+    destruct (invC_frame_thread _ t _ th' Hth eq_refl C2 C3) as [F1 F2]
+  end.
+
+Lemma tinvC_pre_send fx t th : tinvC fx t th = true -> pre_send fx (t_pc th) = true -> t_ev th = None.
+Proof.
+  unfold tinvC. intros H Hp. rewrite Hp in H.
+  repeat (apply andb_prop in H; destruct H as [H ?]).
+  destruct (t_ev th); [discriminate|reflexivity].
+Qed.
+
+Lemma invC_send fx s t th e pc' :
+  InvC fx s -> threads s t = Some th -> pre_send fx (t_pc th) = true ->
+  in_ev (co s) = None -> e_sid e = t ->
+  tinvC fx t (set_ev th pc' e) = true ->
+  InvC fx (w_threads (w_sent s (set_in (co s) (Some e)) e) (updt (threads s) t (set_ev th pc' e))).
+Proof.
+  intros (C1 & C2 & C3 & C4 & C5) Hth Hp Hi Hsid Hnew.
+  pose proof (tinvC_pre_send _ _ _ (C5 _ _ Hth) Hp) as Hev.
+  assert (Hnot : forall e', In e' (sent_log s) -> e_sid e' <> t).
+  { intros e' He' E. destruct (C2 _ He') as (th1 & H1 & H2). rewrite E, Hth in H1. inversion H1; subst. congruence. }
+  split5; ssimp; csimp.
+  - rewrite C1, Hi. cbn. rewrite app_nil_r. reflexivity.
+  - intros e' He'. apply in_app_or in He'. destruct He' as [He'|[<-|[]]].
+    + destruct (C2 _ He') as (th1 & H1 & H2). exists th1. split; [|exact H2].
+      rewrite updt_other; [exact H1|]. apply Hnot; assumption.
+    + rewrite Hsid, updt_same. eexists; split; reflexivity.
+  - intros t0 th0 e0 H0 He0. apply updt_cases in H0. destruct H0 as [[-> ->]|[Hne H0]].
+    + cbn in He0. inversion He0; subst. apply in_or_app. right. left. reflexivity.
+    + apply in_or_app. left. eapply C3; eassumption.
+  - rewrite map_app. cbn [map].
+    apply Permutation_NoDup with (l := e_sid e :: map e_sid (sent_log s)); [apply Permutation_cons_append|].
+    constructor; [|exact C4]. intro Hin. apply in_map_iff in Hin. destruct Hin as (e' & E & He').
+    apply (Hnot _ He'). congruence.
+  - intros t0 th0 H0. apply updt_cases in H0. destruct H0 as [[-> ->]|[Hne H0]]; [exact Hnew|exact (C5 _ _ H0)].
+Qed.
+
+(* a sender is never at its send when inEvents is closed *)
+Lemma sender_not_closed s t th :
+  InvB s -> threads s t = Some th -> (t_pc th = PSend \/ t_pc th = PSendErr) -> in_closed (co s) = false.
+Proof.
+  intros (B1 & B2 & B3 & B4 & B5 & B6 & B7) Hth Hpc.
+  destruct (in_closed (co s)) eqn:Hic; [|reflexivity]. exfalso.
+  specialize (B3 eq_refl). pose proof (B7 _ _ Hth) as Bt.
+  unfold tinvB, exp_active, async_active in Bt. rewrite B3 in Bt.
+  destruct Hpc as [Hpc|Hpc]; rewrite Hpc in Bt; destruct (k_async (t_kind th)); discriminate Bt.
+Qed.
+
+Lemma invC_step fx s l s' : InvB s -> InvC fx s -> stepf fx s l = Some s' -> InvC fx s'.
+Proof.
+  intros (B1 & B2 & B3 & B4 & B5 & B6 & B7) (C1 & C2 & C3 & C4 & C5) H.
+  step_inv H.
+  (* thread steps that send nothing *)
+  all: try (frameC Hth C2 C3; split5; ssimp; auto; [thC C5 Hth Hpc fx]; fail).
+  all: try (destruct fx; (frameC Hth C2 C3; split5; ssimp; auto; [thC C5 Hth Hpc fx]); fail).
+  - (* Spawn *)
+    split5; ssimp; auto.
+    + intros e He. destruct (C2 _ He) as (th1 & H1 & H2). exists th1. split; [|exact H2].
+      rewrite updt_other; [exact H1|]. specialize (B6 _ _ H1). lia.
+    + intros t th e Ht He. apply updt_cases in Ht. destruct Ht as [[-> ->]|[Hne Ht]]; [discriminate He|].
+      eapply C3; eassumption.
+    + intros t th Ht. apply updt_cases in Ht. destruct Ht as [[-> ->]|[Hne Ht]]; [|exact (C5 _ _ Ht)].
+      unfold tinvC, ev_ok, sends; ssimp. destruct k; [destruct (exp_closed s)|]; destruct fx; reflexivity.
+  - (* PSend *)
+    pose proof (sender_not_closed s t th (conj B1 (conj B2 (conj B3 (conj B4 (conj B5 (conj B6 B7)))))) Hth (or_introl Hpc)) as Hic.
+    cbn [cstep] in Hcs. rewrite Hic in Hcs. destruct (in_ev (co s)) eqn:Hi; [discriminate|]. inv_some.
+    apply invC_send; auto.
+    + split5; rewrite ?Hi; auto.
+    + unfold pre_send. rewrite Hpc. reflexivity.
+    + pose proof (C5 _ _ Hth) as Ct.
+      unfold tinvC, ev_ok, pre_out, pre_send, is_setsend, is_senderr, sends, out_ok, out_cnt, set_ev in *; ssimp.
+      rewrite Hpc in Ct. destruct fx; destruct (t_out th) as [[[|] ?]|]; destruct (t_ev th);
+        destruct (k_async (t_kind th)); destruct (k_upd (t_kind th)); cbn in *; try discriminate;
+        rewrite ?event_eqb_refl; reflexivity.
+  - (* PSendErr *)
+    pose proof (sender_not_closed s t th (conj B1 (conj B2 (conj B3 (conj B4 (conj B5 (conj B6 B7)))))) Hth (or_intror Hpc)) as Hic.
+    cbn [cstep] in Hcs. rewrite Hic in Hcs. destruct (in_ev (co s)) eqn:Hi; [discriminate|]. inv_some.
+    apply invC_send; auto.
+    + split5; rewrite ?Hi; auto.
+    + unfold pre_send. rewrite Hpc. reflexivity.
+    + pose proof (C5 _ _ Hth) as Ct.
+      unfold tinvC, ev_ok, pre_out, pre_send, is_setsend, is_senderr, sends, out_ok, out_cnt, set_ev in *; ssimp.
+      rewrite Hpc in Ct. destruct fx; destruct (t_out th) as [[[|] ?]|]; destruct (t_ev th);
+        destruct (k_async (t_kind th)); destruct (k_upd (t_kind th)); cbn in *; try discriminate;
+        rewrite ?event_eqb_refl; reflexivity.
+  - (* closer 0 *)
+    cbn [cstep] in Hcs. destruct (closing (co s)); inv_some; split5; ssimp; csimp; auto.
+  - split5; ssimp; auto.
+  - split5; ssimp; auto.
+  - split5; ssimp; auto.
+  - split5; ssimp; auto.
+  - (* closer 5 *)
+    cbn [cstep] in Hcs. destruct (in_closed (co s)); inv_some; split5; ssimp; csimp; auto.
+  - (* core *)
+    destruct (cstep_ok_frame _ _ _ Hok Hcs) as (_ & _ & _ & F4).
+    split5; ssimp; auto. rewrite F4. exact C1.
+Qed.
+
+Theorem invC_reach fx s : reach fx s -> InvC fx s.
+Proof.
+  apply (invariant_reachable2 (stepf fx) InvB (InvC fx)).
+  - apply invB_reach.
+  - apply invC_init.
+  - intros; eapply invC_step; eassumption.
+Qed.
+
+(* ---- group E: the latest-sync value is stored before the event is sent ---- *)
+
+Definition InvE (s : st) : Prop :=
+  forall t th, threads s t = Some th ->
+    (t_pc th = PSend \/ exists e, t_ev th = Some e /\ e_err e = false) ->
+    In (k_pub (t_kind th), k_cid (t_kind th), t) (latest_log s).
+
+Lemma invE_init : InvE init.
+Proof. intros t th H. discriminate H. Qed.
+
+Lemma invE_step fx s l s' : InvE s -> stepf fx s l = Some s' -> InvE s'.
+Proof.
+  intros E H. step_inv H; try (destruct fx);
+    intros t0 th0 Ht0 Hprem; ssimp;
+    first
+    [ apply updt_cases in Ht0; destruct Ht0 as [[-> ->]|[Hne Ht0]];
+      [ destruct Hprem as [Hp|(e0 & He0 & Herr0)]; ssimp;
+        [ first
+          [ discriminate Hp
+          | exfalso; destruct k; [destruct (exp_closed s)|]; discriminate Hp
+          | apply in_or_app; right; left; reflexivity
+          | exfalso; unfold after_handle, set_out in Hp; ssimp;
+            destruct (t_out th) as [[[|] ?]|]; destruct (k_upd (t_kind th)); destruct (k_async (t_kind th)); discriminate Hp ]
+        | first
+          [ discriminate He0
+          | try (apply in_or_app; left); apply (E _ _ Hth); right; eauto; fail
+          | inversion He0; subst; cbn in Herr0; first [discriminate Herr0|apply (E _ _ Hth); left; assumption] ] ]
+      | try (apply in_or_app; left); eapply E; eassumption ]
+    | eapply E; eassumption ].
+Qed.
+
+Theorem invE_reach fx s : reach fx s -> InvE s.
+Proof. apply invariant_reachable; [apply invE_init|apply invE_step]. Qed.
+
+(* ---- group A: the per-publisher mutexes ---- *)
+
+Definition holds (m : option nat) (t : nat) : bool := match m with Some x => Nat.eqb x t | None => false end.
+
+Definition in_sync_cs (fx : bool) (p : pc) : bool :=
+  match p with
+  | PRun | PUnlock => true
+  | PSetLatest | PSend | PSendErr => fx
+  | _ => false
+  end.
+Definition in_async_cs (p : pc) : bool := match p with PLockA | PFin => false | _ => true end.
+
+Definition async_only (p : pc) : bool := match p with PLockA | PUnlockA => true | _ => false end.
+
+Definition tinvA (fx : bool) (s : st) (t : nat) (th : thread) : bool :=
+  implb (async_only (t_pc th)) (k_async (t_kind th)) &&
+  implb (in_sync_cs fx (t_pc th)) (holds (sync_mu s (k_pub (t_kind th))) t) &&
+  implb (k_async (t_kind th) && in_async_cs (t_pc th)) (holds (async_mu s (k_pub (t_kind th))) t).
+
+Definition InvA (fx : bool) (s : st) : Prop :=
+  forall t th, threads s t = Some th -> tinvA fx s t th = true.
+
+Lemma holds_upd_same {m : N -> option nat} p t : holds (updN m p (Some t) p) t = true.
+Proof. unfold updN. rewrite N.eqb_refl. cbn. apply Nat.eqb_refl. Qed.
+
+Lemma implb_acquire_other (m : N -> option nat) p t q t0 c :
+  m p = None -> implb c (holds (m q) t0) = true -> implb c (holds (updN m p (Some t) q) t0) = true.
+Proof.
+  intros Hn H. unfold updN. destruct (N.eqb_spec q p) as [->|]; [|exact H].
+  rewrite Hn in H. destruct c; [discriminate H|reflexivity].
+Qed.
+
+Lemma implb_release_other (m : N -> option nat) p t q t0 c :
+  holds (m p) t = true -> t0 <> t -> implb c (holds (m q) t0) = true -> implb c (holds (updN m p None q) t0) = true.
+Proof.
+  intros Hh Hne H. unfold updN. destruct (N.eqb_spec q p) as [->|]; [|exact H].
+  destruct c; [|reflexivity]. cbn in H. exfalso.
+  unfold holds in *. destruct (m p); [|discriminate]. apply Nat.eqb_eq in Hh, H. congruence.
+Qed.
+
+Lemma invA_init fx : InvA fx init.
+Proof. intros t th H. discriminate H. Qed.
+
+(* the stepping thread, when the mutex maps are untouched *)
+Ltac thA A Hth Hpc fx :=
+  let At := fresh "At" in
+  pose proof (A _ _ Hth) as At;
+  unfold tinvA, async_only, in_sync_cs, in_async_cs, after_handle, set_out, set_pc, set_ev in *; ssimp; rewrite Hpc in At;
+  match type of Hth with
+  | threads ?s ?t = Some ?th =>
+    try destruct fx; ssimp;
+    try destruct (t_out th) as [[[|] ?]|]; ssimp;
+    destruct (k_upd (t_kind th)); ssimp;
+    destruct (k_async (t_kind th)); ssimp;
+    destruct (holds (sync_mu s (k_pub (t_kind th))) t); destruct (holds (async_mu s (k_pub (t_kind th))) t);
+    cbn in *; try reflexivity; try discriminate
+  end.
+
+Lemma invA_step fx s l s' : InvB s -> InvA fx s -> stepf fx s l = Some s' -> InvA fx s'.
+Proof.
+  intros (B1 & B2 & B3 & B4 & B5 & B6 & B7) A H.
+  step_inv H; intros t0 th0 Ht0; ssimp;
+    try (apply updt_cases in Ht0; destruct Ht0 as [[-> ->]|[Hne Ht0]]);
+    try (exact (A _ _ Ht0));
+    try (thA A Hth Hpc fx; fail).
+  - (* Spawn *)
+    unfold tinvA; ssimp. destruct k; [destruct (exp_closed s)|]; destruct fx; reflexivity.
+  - (* PLockA, self *)
+    pose proof (A _ _ Hth) as At. unfold tinvA in *; ssimp. rewrite Hpc in At.
+    rewrite holds_upd_same. cbn. rewrite andb_true_r. destruct (k_async (t_kind th)); reflexivity.
+  - (* PLockA, others *)
+    pose proof (A _ _ Ht0) as At. unfold tinvA in *; ssimp.
+    apply andb_prop in At. destruct At as [A1 A2]. rewrite A1. cbn.
+    apply implb_acquire_other; assumption.
+  - (* PLock, self *)
+    pose proof (A _ _ Hth) as At. unfold tinvA in *; ssimp. rewrite Hpc in At.
+    rewrite holds_upd_same. cbn. cbn in At. exact At.
+  - (* PLock, others *)
+    pose proof (A _ _ Ht0) as At. unfold tinvA in *; ssimp.
+    apply andb_prop in At. destruct At as [A1 A2]. apply andb_prop in A1. destruct A1 as [A0 A1].
+    rewrite A0, A2, andb_true_r. cbn.
+    apply implb_acquire_other; assumption.
+  - (* PUnlock, others *)
+    pose proof (A _ _ Hth) as At. unfold tinvA in At; ssimp. rewrite Hpc in At. cbn in At.
+    apply andb_prop in At. destruct At as [Ah _].
+    pose proof (A _ _ Ht0) as A0. unfold tinvA in *; ssimp.
+    apply andb_prop in A0. destruct A0 as [A1 A2]. apply andb_prop in A1. destruct A1 as [A0 A1].
+    rewrite A0, A2, andb_true_r. cbn.
+    eapply implb_release_other; eassumption.
+  - (* PUnlockA, others *)
+    pose proof (A _ _ Hth) as At. unfold tinvA in At; ssimp. rewrite Hpc in At. cbn in At.
+    apply andb_prop in At. destruct At as [At Ah]. apply andb_prop in At. destruct At as [Hka' _].
+    rewrite Hka' in Ah. cbn in Ah.
+    pose proof (A _ _ Ht0) as A0. unfold tinvA in *; ssimp.
+    apply andb_prop in A0. destruct A0 as [A1 A2]. rewrite A1. cbn.
+    eapply implb_release_other; eassumption.
+Qed.
+
+Theorem invA_reach fx s : reach fx s -> InvA fx s.
+Proof.
+  apply (invariant_reachable2 (stepf fx) InvB (InvA fx)).
+  - apply invB_reach.
+  - apply invA_init.
+  - intros; eapply invA_step; eassumption.
+Qed.
